@@ -282,3 +282,17 @@ func termMentionsBound(t *Term) bool {
 	}
 	return false
 }
+
+// pureAppNamed: an uninterpreted application by name (library functions modelled as pure).
+func (x *Exec) pureAppNamed(name, rs string, args []*Term) *Term {
+	q := quoteSym(name)
+	if _, ok := x.vc.declared[q]; !ok {
+		var ss []string
+		for _, a := range args {
+			ss = append(ss, a.S)
+		}
+		x.vc.declared[q] = rs
+		x.vc.items = append(x.vc.items, Item{Kind: "declfun", Name: q, Raw: fmt.Sprintf("(declare-fun %s (%s) %s)", q, strings.Join(ss, " "), rs)})
+	}
+	return App(q, rs, args...)
+}
